@@ -383,7 +383,9 @@ def validate_traces(module: str, cfg: str | Path, traces: list, work: Path, *, n
     if os.environ.get("VERIF_SAVE_TRACES"):
         sd = Path(os.environ["VERIF_SAVE_TRACES"])
         sd.mkdir(parents=True, exist_ok=True)
-        (sd / f"{module}.json").write_text(json.dumps(_no_null(traces[:400])))
+        tmpf = sd / f".{module}.{time.time_ns()}.tmp"          # chunks are validated concurrently: replace atomically
+        tmpf.write_text(json.dumps(_no_null(traces[:400])))
+        os.replace(tmpf, sd / f"{module}.json")
         for k_, v_ in (env or {}).items():          # side files the trace spec reads (deviation lists, keyword lists)
             if v_ and os.path.isfile(str(v_)):
                 (sd / f"{module}.{k_}.json").write_text(Path(v_).read_text())
